@@ -3,6 +3,8 @@ EXTENDS LanSession
 HSAll == {"valid", "forged", "error", "garbage", "enc", "none"}
 HSSome == {"valid", "forged", "none"}
 DataAll == {"valid", "bad", "error", "garbage", "hsr", "none", "valid+unsolicited", "dup"}
+DataNoise == DataAll \cup {"noise"}
+DataNoiseSome == {"valid", "none", "noise", "bad"}
 DataSome == {"valid", "bad", "none", "valid+unsolicited"}
 HSValid == {"valid"}
 DataValid == {"valid", "none"}
